@@ -1,0 +1,146 @@
+//! Verification hooks. Only compiled with `--cfg deadpool_verif`.
+//!
+//! Re-exports the hook registry and the `Mutex` / atomic shims of
+//! `deadpool_runtime::verif` and adds a shim around
+//! [`tokio::sync::Semaphore`]. Every shim calls the real primitive and only
+//! reports the operation to the installed hooks beforehand; without
+//! installed hooks it is a plain pass-through.
+#![allow(missing_docs, missing_debug_implementations, unreachable_pub)]
+
+use std::{fmt, future::Future, pin::pin};
+
+pub use deadpool_runtime::verif::*;
+use tokio::sync::{AcquireError, TryAcquireError};
+
+pub struct Semaphore {
+    id: u64,
+    inner: tokio::sync::Semaphore,
+}
+
+#[must_use]
+pub struct SemaphorePermit<'a> {
+    inner: Option<tokio::sync::SemaphorePermit<'a>>,
+    id: u64,
+}
+
+impl Semaphore {
+    pub fn new(permits: usize) -> Self {
+        Self {
+            id: new_object(ObjKind::Semaphore),
+            inner: tokio::sync::Semaphore::new(permits),
+        }
+    }
+
+    pub fn id(&self) -> u64 {
+        self.id
+    }
+
+    fn wrap<'a>(&self, p: tokio::sync::SemaphorePermit<'a>) -> SemaphorePermit<'a> {
+        SemaphorePermit {
+            inner: Some(p),
+            id: self.id,
+        }
+    }
+
+    pub fn try_acquire(&self) -> Result<SemaphorePermit<'_>, TryAcquireError> {
+        point(Op::SemTryAcquire, self.id);
+        self.inner.try_acquire().map(|p| self.wrap(p))
+    }
+
+    pub fn try_acquire_many(&self, n: u32) -> Result<SemaphorePermit<'_>, TryAcquireError> {
+        point(Op::SemTryAcquire, self.id);
+        self.inner.try_acquire_many(n).map(|p| self.wrap(p))
+    }
+
+    pub async fn acquire(&self) -> Result<SemaphorePermit<'_>, AcquireError> {
+        let mut fut = pin!(self.inner.acquire());
+        let id = self.id;
+        std::future::poll_fn(|cx| {
+            point(Op::SemAcquirePoll, id);
+            fut.as_mut().poll(cx)
+        })
+        .await
+        .map(|p| self.wrap(p))
+    }
+
+    pub fn add_permits(&self, n: usize) {
+        point(Op::SemAddPermits, self.id);
+        self.inner.add_permits(n)
+    }
+
+    pub fn forget_permits(&self, n: usize) -> usize {
+        point(Op::SemForgetPermits, self.id);
+        self.inner.forget_permits(n)
+    }
+
+    pub fn close(&self) {
+        point(Op::SemClose, self.id);
+        self.inner.close()
+    }
+
+    pub fn is_closed(&self) -> bool {
+        point(Op::SemIsClosed, self.id);
+        self.inner.is_closed()
+    }
+
+    pub fn available_permits(&self) -> usize {
+        self.inner.available_permits()
+    }
+
+    /// Never a scheduling point; used by snapshot accessors.
+    pub fn is_closed_silent(&self) -> bool {
+        self.inner.is_closed()
+    }
+}
+
+impl SemaphorePermit<'_> {
+    pub fn forget(mut self) {
+        if let Some(p) = self.inner.take() {
+            p.forget()
+        }
+    }
+}
+
+impl Drop for SemaphorePermit<'_> {
+    fn drop(&mut self) {
+        if let Some(p) = self.inner.take() {
+            point(Op::SemPermitDrop, self.id);
+            drop(p);
+        }
+    }
+}
+
+impl fmt::Debug for Semaphore {
+    fn fmt(&self, f: &mut fmt::Formatter<'_>) -> fmt::Result {
+        fmt::Debug::fmt(&self.inner, f)
+    }
+}
+
+impl fmt::Debug for SemaphorePermit<'_> {
+    fn fmt(&self, f: &mut fmt::Formatter<'_>) -> fmt::Result {
+        fmt::Debug::fmt(&self.inner, f)
+    }
+}
+
+/// Read-only view of a managed pool's internal counters (diagnostics and
+/// state fingerprints only).
+#[derive(Clone, Copy, Debug, Default, PartialEq, Eq, Hash)]
+pub struct ManagedSnapshot {
+    pub permits: usize,
+    pub closed: bool,
+    pub size: usize,
+    pub max_size: usize,
+    pub idle: usize,
+    pub users: usize,
+}
+
+/// Read-only view of an unmanaged pool's internal counters.
+#[derive(Clone, Copy, Debug, Default, PartialEq, Eq, Hash)]
+pub struct UnmanagedSnapshot {
+    pub permits: usize,
+    pub size_permits: usize,
+    pub closed: bool,
+    pub size: usize,
+    pub available: isize,
+    pub queued: usize,
+}
